@@ -4,13 +4,15 @@
 
   OBLIGATIONS (checked by the harness: every name is a theorem of this file, axioms audited):
     operator_table_sound cmp_probe_agrees prec_probe_agrees function_table_sound
-    nodetest_table_sound axis_table_sound
+    nodetest_table_sound axis_table_sound pred_eval_sound pred_outcome_sound
+    substring_not_xpath ne_absent_not_xpath
 -/
 import Genshi.Model.Path
 import Genshi.Model.PathParse
 import Genshi.Model.PathStrategy
 import Genshi.Model.PathRef
 import Genshi.Gen.Path
+import Genshi.Lemmas.PathEval
 namespace Genshi.Props.C05
 open Genshi Genshi.Path
 
@@ -118,5 +120,74 @@ theorem axis_table_sound :
     Gen.Path.axisNames.map axisForName = [some .attribute, some .child, some .descendant, some .descendantOrSelf, some .self] ∧
     axisForName ['p','a','r','e','n','t'] = none ∧ axisForName ['a','n','c','e','s','t','o','r'] = none ∧
     axisForName ['f','o','l','l','o','w','i','n','g','-','s','i','b','l','i','n','g'] = none := by decide
+
+/-! ## Predicate evaluation -/
+
+/-- **pred_eval_sound.**  On the typed fragment — attribute lookups `@*`, `@p:*`, `@name`,
+    literals, bound variables holding strings / numbers / booleans, every function of the
+    documented subset except `substring` (finding C05-substring) and the non-XPath `matches`,
+    `and` / `or`, the six comparison operators — the value the implementation computes for a
+    predicate expression at a node *is* the XPath 1.0 value (sections 3.4, 4 of the
+    recommendation as written down in `Ref.xEval`), for every node, namespace map and variable
+    binding, provided no `=`/`!=` hits the pinned treatment of an absent attribute
+    (`absentFree`, finding C05-ne-absent-attribute).  Together with `operator_table_sound` and
+    `function_table_sound` (token ↦ class ↦ this semantics) a swapped comparison or a wrong
+    coercion is a failed proof.
+
+    Not covered (the gap to the full statement): `@p:name` lookups in predicates (name
+    hygiene of expanded names), `substring`. -/
+theorem pred_eval_sound (n : Node) (hn : nodeOk n) (ns : NsMap) (vs : Vars) (e : Expr)
+    (ht : e.typed ns vs = true) (hab : e.absentFree (nodeEvent n) ns vs = true) :
+    (e.eval (nodeEvent n) ns vs).toX = some (Ref.xEval n ns (toXVars vs) e) :=
+  eval_toX n hn ns vs e ht hab
+
+/-- the outcome of a predicate as the matchers use it: a number is a position test with that
+    very number, anything else a truth test with the XPath boolean value -/
+theorem pred_outcome_sound (n : Node) (hn : nodeOk n) (ns : NsMap) (vs : Vars) (e : Expr)
+    (ht : e.typed ns vs = true) (hab : e.absentFree (nodeEvent n) ns vs = true) (pos : Nat) :
+    (match e.eval (nodeEvent n) ns vs with
+     | .num x => x.eqNat pos
+     | v => v.truthy) = Ref.predHolds e n pos ns (toXVars vs) := by
+  have h := eval_toX n hn ns vs e ht hab
+  unfold Ref.predHolds
+  cases hv : e.eval (nodeEvent n) ns vs <;> rw [hv] at h <;> simp [Val.toX] at h <;> rw [← h] <;>
+    simp [Val.truthy, Ref.xBoolean]
+
+example : (Expr.cmp .ge (.test (.localName true ['n'])) (.num (.dec false 2 0))).typed [] [] = true := by decide
+example : (Expr.cmp .ge (.test (.localName true ['n'])) (.num (.dec false 2 0))).absentFree
+    (.start ⟨[], ['a']⟩ [(⟨[], ['n']⟩, ['3'])]) [] [] = true := by decide
+example : nodeOk (.elem ⟨[], ['a']⟩ [(⟨[], ['n']⟩, ['3'])] []) := by
+  refine ⟨by decide, ?_⟩; intro p hp; simp at hp; subst hp; decide
+
+/-! ## Witnesses of the recorded findings: the full statement is false of the model there -/
+
+def docFoo : Node := .elem ⟨[], ['r']⟩ [] [.elem ⟨[], ['f','o','o']⟩ [] []]
+
+/-- `*[substring(name(),1,1)="f"]` -/
+def pathSubstring : List LocPath := [[⟨.child, .principal false,
+  [.cmp .eq (.fn3 .substring (.fn0 .name) (.num (.dec false 1 0)) (.num (.dec false 1 0))) (.str ['f'])]⟩]]
+
+example : parse "*[substring(name(),1,1)=\"f\"]".toList = .ok pathSubstring := by decide +kernel
+
+/-- finding C05-substring: the implementation selects nothing, XPath 1.0 selects `<foo/>` -/
+theorem substring_not_xpath :
+    select pathSubstring [] [] docFoo.flatten = [] ∧
+    Ref.xpSelect pathSubstring [] [] docFoo
+      = [.ev (.start ⟨[], ['f','o','o']⟩ []), .ev (.end_ ⟨[], ['f','o','o']⟩)] := by decide +kernel
+
+def docAbsent : Node := .elem ⟨[], ['r']⟩ [] [.elem ⟨[], ['a']⟩ [] []]
+
+/-- `a[@x!="v"]` -/
+def pathNeAbsent : List LocPath :=
+  [[⟨.child, .localName false ['a'], [.cmp .ne (.test (.localName true ['x'])) (.str ['v'])]⟩]]
+
+example : parse "a[@x!=\"v\"]".toList = .ok pathNeAbsent := by decide +kernel
+
+/-- finding C05-ne-absent-attribute: `<a/>` has no `x`; the implementation selects it, XPath
+    1.0 does not (a comparison with the empty node set is false) -/
+theorem ne_absent_not_xpath :
+    select pathNeAbsent [] [] docAbsent.flatten
+      = [.ev (.start ⟨[], ['a']⟩ []), .ev (.end_ ⟨[], ['a']⟩)] ∧
+    Ref.xpSelect pathNeAbsent [] [] docAbsent = [] := by decide +kernel
 
 end Genshi.Props.C05
